@@ -211,6 +211,19 @@ def export_stmts(node, cx):
     raise minif.Unsupported(type(node).__name__)
 
 
+def canon_neg(x):
+    """(-a)*b and (-a)/b are printed as `-a * b` and re-read as -(a*b): the same value (exact product,
+    truncating division); operator-precedence of the writer is C02's subject.  Canonical form: negation outside."""
+    if not isinstance(x, list):
+        return x
+    x = [canon_neg(y) for y in x]
+    if len(x) == 4 and x[0] == "bin" and x[1] in ("mul", "div") and isinstance(x[2], list) and x[2][:2] == ["un", "neg"]:
+        return canon_neg(["un", "neg", ["bin", x[1], x[2][2], x[3]]])
+    if len(x) == 3 and x[:2] == ["un", "neg"] and isinstance(x[2], list) and x[2][:2] == ["un", "neg"]:
+        return x[2][2]
+    return x
+
+
 def routines_of(psyir):
     from psyclone.psyir.nodes import Routine
     return {r.name.lower(): r for r in psyir.walk(Routine)}
@@ -331,8 +344,8 @@ def run(chk):
                                "harness/props/c01.py exporter + c01_gen.py generator", "fparser2, gfortran"]
     chk.lean()
     thorough = chk.tier == "thorough"
-    nprog = 1500 if thorough else 110
-    nrun = 500 if thorough else 36
+    nprog = 1500 if thorough else 80
+    nrun = 500 if thorough else 24
     rng = chk.rng
 
     programs = []
@@ -380,9 +393,10 @@ def run(chk):
                 try:
                     ex = export_stmt(table[r.name].children, cx)
                     # an empty schedule (e.g. an empty ELSE body, which the writer drops) is `skip`
-                    getattr(c, which)[r.name] = (sx(ex).replace("(seqs)", "(skip)"), cx.verbatim_bad)
+                    getattr(c, which)[r.name] = (sx(ex).replace("(seqs)", "(skip)"), cx.verbatim_bad,
+                                                 sx(canon_neg(ex)).replace("(seqs)", "(skip)"))
                 except minif.Unsupported as e:
-                    getattr(c, which)[r.name] = (None, str(e))
+                    getattr(c, which)[r.name] = (None, str(e), None)
             if c.impl[r.name][0] is not None:
                 cmp_lines.append(sx(["cmp", c.env, r.ast, c.impl[r.name][0]]))
                 cmp_refs.append((c, r))
@@ -398,7 +412,7 @@ def run(chk):
             stats["routines"] += 1
             for f in r.feats:
                 feats[f] = feats.get(f, 0) + 1
-            ex, info = c.impl[r.name]
+            ex, info, exc = c.impl[r.name]
             nontriv = bool(r.feats & {"select", "where", "do", "if", "array-assign"})
             if ex is None:
                 stats["unmodelled"] += 1
@@ -410,7 +424,7 @@ def run(chk):
             if not good:
                 c.good = False
                 stats["not_good(where outside theorem)"] += 1
-            ok2 = c.impl2.get(r.name, (None, None))[0] == ex if c.impl2 else False
+            ok2 = c.impl2.get(r.name, (None, None, None))[2] == exc if c.impl2 else False
             chk.case({"routine": r.ast}, nontrivial=nontriv, agreed=same and ok2 and not info)
             if same:
                 stats["lowering_agree"] += 1
